@@ -3,7 +3,11 @@
 
 Case lines
   1 start end
-  2 body p1 p2 ndict bcast usekey capture
+  2 body p1 p2 ndict bcast usekey capture [shape]
+        shape 0 map_(f, d0[, d1][, b]) | 1 map_(f, d0, no_key(d1)[, b]) | 2 map_(f, b, d0, no_key(d1)) | 3 map_(f, b, no_key(d1), d0)
+              4 map_(f, b, d0[, d1]) (broadcast argument in front) | 5 map_ over dynamic lists, the index is the key (sets only,
+              an index is appended only at the current length)
+        capture 1: exception_time_series(map_(...)) is wired and observed, also for bodies that never fail
         body 0 add p1 | 1 acc | 2 acc;add p1 | 3 timer d=p1 tagged=p2 | 4 timer;acc | 5 acc;boom p1 (capture = 1)
              6 nested: the body is map_(y + x, <whole dict 1, passed through>, x) summed over its elements; ndict = 1,
                dict 1 is the passed-through dictionary (its operations always change it); lines 20 21 24 are omitted
@@ -19,7 +23,8 @@ Observation lines (per cycle, only when something happened; keys sorted)
   30 t        the map output ticked
   31 t k..    removed keys        32 t k v ..  modified valid elements     33 t k..  modified but invalid elements
   34 t k v .. all valid elements  35 t k..     live element keys (valid or not)            36 t k..  added keys
-  37 t k..    keys whose captured-error element ticked (capture = 1)
+  37 t k..    the error dictionary ticked: keys whose error element ticked      38 t k..  keys removed from the error dictionary
+              (capture = 1; both lines for EVERY tick of the error dictionary, also one with an empty delta)
   24 n        child graphs stopped at shutdown     25 k..  probes stopped at shutdown (usekey only)
   19 code     an exception escaped the run         18 1    the graph could not be built
 """
@@ -47,10 +52,24 @@ def _gen_base(rng, tier):
     p2 = rng.randint(0, 1) if body in (3, 4) else 0
     mode = rng.random()
     ndict, bcast = (2, 0) if mode < 0.3 else (1, 1) if mode < 0.5 else (1, 0)
-    nested = rng.random() < 0.12
+    nested = rng.random() < 0.10
+    shape = 0
     if nested:
         body, p1, p2, ndict, bcast = 6, 0, 0, 1, 0
+    else:
+        r = rng.random()
+        if r < 0.12:
+            return _gen_lists(rng, tier, start, body, p1, p2)
+        if r < 0.26:
+            # the second dictionary is a no_key(...) input; in shapes 2 and 3 a broadcast argument precedes the dictionaries
+            shape = rng.choice([1, 1, 2, 2, 3])
+            ndict = 2
+            bcast = 1 if shape in (2, 3) else rng.randint(0, 1)
+        elif r < 0.32:
+            shape, bcast, ndict = 4, 1, rng.choice([1, 2])
     usekey = 1 if rng.random() < 0.5 else 0
+    # the error output is wired and observed also in runs in which nothing fails
+    capture = 1 if body in (0, 1, 2, 3, 4) and rng.random() < 0.25 else 0
     burst = rng.random() < (0.12 if quick else 0.2)
     nkeys = rng.randint(1, 6) if not burst else rng.randint(9, 70)
     pool = rng.sample(range(1, 90), nkeys) if rng.random() < 0.7 else list(range(1, nkeys + 1))
@@ -60,7 +79,7 @@ def _gen_base(rng, tier):
         times.append(t)
         t += rng.choice([1, 1, 1, 2, 2, 3])
     end = t + rng.randint(0, 6)
-    case = [[1, start, end], [2, body, p1, p2, ndict, bcast, usekey, 0]]
+    case = [[1, start, end], [2, body, p1, p2, ndict, bcast, usekey, capture, shape]]
     d1keys = set()
     present = [set() for _ in range(ndict)]
     gone = [set() for _ in range(ndict)]
@@ -137,9 +156,48 @@ def _gen_base(rng, tier):
     return case
 
 
+def _gen_lists(rng, tier, start, body, p1, p2):
+    """map_ over one or two dynamic lists (the index is the key): grow-only; the lists have different lengths, a pending
+    index is filled by the shorter list alone or in the very cycle in which the longer one grows too."""
+    quick = tier == "quick"
+    nl = rng.choice([1, 2, 2, 2])
+    bcast = 1 if rng.random() < 0.25 else 0
+    usekey = 1 if rng.random() < 0.4 else 0
+    if body == 5:
+        body = 1
+    ncyc = rng.randint(3, 12 if quick else 30)
+    t = start + (0 if rng.random() < 0.6 else rng.randint(1, 2))
+    case = [[1, start, 0], [2, body, p1, p2, nl, bcast, usekey, 0, 5]]
+    length = [0] * nl
+    for _ in range(ncyc):
+        both = nl == 2 and rng.random() < 0.35          # both lists grow in this cycle
+        for d in range(nl):
+            if not both and nl == 2 and rng.random() < 0.4:
+                continue
+            nops = rng.randint(1, 3) if rng.random() < 0.85 else rng.randint(3, 8)
+            touched = set()
+            for i in range(nops):
+                if length[d] == 0 or (both and i == 0) or rng.random() < 0.4:
+                    idx = length[d]
+                    length[d] += 1
+                else:
+                    idx = rng.randrange(length[d])
+                if idx in touched:
+                    continue
+                touched.add(idx)
+                case.append([3, d, t, 1, idx, rng.randint(-5, 40)])
+        if bcast and rng.random() < 0.35:
+            case.append([4, t, rng.randint(-9, 60)])
+        t += rng.choice([1, 1, 1, 2, 2, 3])
+    case[0][2] = t + rng.randint(0, 6)
+    return case
+
+
 def _twin(rng, case):
     """The same history with one key's stream perturbed (extra ticks, early removal, late arrival)."""
     hdr = parse_case(case)
+    if hdr["shape"] == 5:
+        return None
     keys = sorted({l[4] for l in case if l[0] == 3 and l[1] < hdr["ndict"]})
     if not keys:
         return None
@@ -192,18 +250,22 @@ def enumerate_cases(prop):
 
 # ---------------------------------------------------------------- reference semantics (Python, independent of Coq)
 def parse_case(case):
-    h = dict(start=1, end=10, body=0, p1=0, p2=0, ndict=1, bcast=0, usekey=0, capture=0, dops={}, bops={}, pert=None)
+    h = dict(start=1, end=10, body=0, p1=0, p2=0, ndict=1, bcast=0, usekey=0, capture=0, shape=0, dops={}, bops={}, pert=None)
     for l in case:
         if l[0] == 1:
             h["start"], h["end"] = l[1], l[2]
         elif l[0] == 2:
             h["body"], h["p1"], h["p2"], h["ndict"], h["bcast"], h["usekey"], h["capture"] = l[1:8]
+            h["shape"] = l[8] if len(l) > 8 else 0
         elif l[0] == 3:
             h["dops"].setdefault(l[2], []).append((l[1], l[3], l[4], l[5]))
         elif l[0] == 4:
             h["bops"][l[1]] = l[2]
         elif l[0] == 9:
             h["pert"] = l[1]
+    # dictionaries that own keys: a no_key(...) dictionary is de-multiplexed but contributes no keys
+    h["nokey"] = h["shape"] in (1, 2, 3)
+    h["own"] = 1 if h["nokey"] else h["ndict"]
     return h
 
 
@@ -255,10 +317,10 @@ class Inst:
             if first or ms or mn or (x[1] and n > 0):
                 return sm + n * x[0]
             return None
-        if len(args) == 2:
-            y = args[1]
-            if x[0] is not None and y[0] is not None and (x[1] or y[1]):
-                self.add2 = x[0] + y[0]
+        if len(args) >= 2:
+            ys = args[1:]
+            if x[0] is not None and all(y[0] is not None for y in ys) and (x[1] or any(y[1] for y in ys)):
+                self.add2 = x[0] + sum(y[0] for y in ys)
                 x = (self.add2, True)
             else:
                 x = (self.add2, False)
@@ -325,7 +387,7 @@ def reference(h):
     """Per key, per life: the output stream of a fresh instance fed that key's own element stream.
     Returns (cycles, per_key) where cycles is the sorted list of script times < end and per_key maps
     key -> list of events (t, kind, value): kind in start, stop, out, removed."""
-    nd = h["ndict"]
+    nd = h["own"]
     times = sorted(t for t in set(h["dops"]) | set(h["bops"]) if h["start"] <= t < h["end"])
     keys = sorted({op[2] for ops in h["dops"].values() for op in ops})
     # broadcast value timeline
@@ -333,6 +395,7 @@ def reference(h):
     for k in keys:
         evs = []
         vals = [None] * nd
+        side = None
         inst = None
         valid = False
         bc = None
@@ -349,9 +412,12 @@ def reference(h):
                 break
             mods = [False] * nd
             bmod = False
+            smod = False
             if nt is not None and nt == t:
                 ti += 1
                 for (d, c, kk, v) in h["dops"].get(t, []):
+                    if kk == k and d == 1 and h["nokey"]:
+                        side, smod = (v, True) if c == 1 else (None, False)
                     if kk != k or d >= nd:
                         continue
                     if c == 1:
@@ -372,6 +438,8 @@ def reference(h):
                     inst = Inst(h, k)
                     evs.append((t, "start", 0))
                 args = [(vals[d], mods[d]) for d in range(nd)]
+                if h["nokey"]:
+                    args.append((side, smod))
                 if h["bcast"]:
                     args.append((bc, bmod))
                 if h["body"] == 6:
@@ -395,7 +463,7 @@ def observed(out):
     """impl_out -> per key event list in the same vocabulary as reference(); plus per-cycle tables."""
     cyc = {}
     for l in out:
-        if l[0] in (20, 21, 22, 23, 30, 31, 32, 33, 34, 35, 36, 37):
+        if l[0] in (20, 21, 22, 23, 30, 31, 32, 33, 34, 35, 36, 37, 38):
             cyc.setdefault(l[1], {})[l[0]] = l[2:]
     fin = {l[0]: l[1:] for l in out if l[0] in (24, 25, 19, 18)}
     return cyc, fin
@@ -441,7 +509,8 @@ def oracle(prop, case, out):
                 continue
             exp.setdefault(t, {"start": [], "stop": [], "out": [], "removed": [], "err": []})[kind].append((k, v))
     live, valid = set(), {}
-    first_set = min([t for t, ops in h["dops"].items() if h["start"] <= t < h["end"] and any(o[1] == 1 and o[0] < h["ndict"] for o in ops)], default=None)
+    err_entries = set()
+    first_set = min([t for t, ops in h["dops"].items() if h["start"] <= t < h["end"] and any(o[1] == 1 and o[0] < h["own"] for o in ops)], default=None)
     for t in sorted(set(exp) | set(cyc) | ({first_set} if first_set is not None else set())):
         e = exp.get(t, {"start": [], "stop": [], "out": [], "removed": [], "err": []})
         o = cyc.get(t, {})
@@ -462,10 +531,25 @@ def oracle(prop, case, out):
                 fails.append(("lifecycle_mismatch", "t=%d: probes started %s stopped %s, expected %s / %s"
                               % (t, o.get(22, []), o.get(23, []), sorted(k for k, _ in e["start"]), sorted(k for k, _ in e["stop"]))))
         # the output dictionary becomes valid (possibly empty) in the cycle the key set becomes known
-        if sorted(o.get(37, [])) != sorted(k for k, _ in e["err"]):
-            fails.append(("error_mismatch", "t=%d: captured errors for keys %s, the keys' own streams fail exactly for %s"
-                          % (t, o.get(37, []), sorted(k for k, _ in e["err"]))))
+        # the error dictionary: ticks exactly when some key's child raised (those keys) or a key that HAS an error entry
+        # is removed (removed = that key); the removal of a key that never failed must be invisible on it
+        exp_emod = sorted(k for k, _ in e["err"])
+        exp_erem = sorted(k for k, _ in e["stop"] if k in err_entries)
+        for k, _ in e["stop"]:
+            err_entries.discard(k)
+        err_entries.update(exp_emod)
+        if h["capture"]:
+            eticked = 37 in o or 38 in o
+            if eticked and not exp_emod and not exp_erem:
+                fails.append(("error_dict_spurious_tick", "t=%d: the error dictionary ticked (modified %s, removed %s) although no child raised "
+                              "and no key with an error entry was removed (keys removed in this cycle: %s)"
+                              % (t, o.get(37, []), o.get(38, []), sorted(k for k, _ in e["stop"]))))
+            elif sorted(o.get(37, [])) != exp_emod or sorted(o.get(38, [])) != exp_erem:
+                fails.append(("error_mismatch", "t=%d: error dictionary delta modified %s removed %s, the keys' own streams give modified %s removed %s"
+                              % (t, o.get(37, []), o.get(38, []), exp_emod, exp_erem)))
         ticked = bool(e["start"] or e["stop"] or e["out"]) or t == first_set
+        if h["shape"] == 5:
+            ticked = bool(e["out"])       # a list output grows silently; it ticks with its elements
         if ticked != (30 in o):
             fails.append(("tick_mismatch", "t=%d: map output %s, expected %s" % (t, "ticked" if 30 in o else "silent", "a tick" if ticked else "silence")))
         if 30 in o:
@@ -507,7 +591,10 @@ def oracle(prop, case, out):
 
 
 PROP_KINDS = {"C10": {"lifecycle_mismatch", "tick_mismatch", "spurious_output", "missing_output", "value_mismatch",
-                      "keyset_mismatch", "invalid_published", "isolation", "escaped_exception", "error_mismatch"}}
+                      "keyset_mismatch", "invalid_published", "isolation", "escaped_exception", "error_mismatch",
+                      "error_dict_spurious_tick"},
+              # C15 (captured errors tick once, where they happen, under that key only) as far as the map family observes it
+              "C15": {"error_mismatch", "error_dict_spurious_tick", "escaped_exception", "missing_output", "value_mismatch"}}
 
 
 def nontrivial(case, out):
@@ -523,7 +610,7 @@ def stats(case, out):
     st = {"cycles": len(set(h["dops"]) | set(h["bops"])), "ops": len(ops), "keys": len(keys),
           "sets": sum(1 for o in ops if o[1] == 1), "erases": sum(1 for o in ops if o[1] == 2),
           "two_dicts": int(h["ndict"] == 2), "bcast": int(h["bcast"]), "usekey": int(h["usekey"]),
-          "body_%d" % h["body"]: 1, "capture": int(h["capture"]), "nested": int(h["body"] == 6), "twin": int(h["pert"] is not None), "many_keys": int(len(keys) >= 9)}
+          "body_%d" % h["body"]: 1, "shape_%d" % h["shape"]: 1, "capture": int(h["capture"]), "nested": int(h["body"] == 6), "twin": int(h["pert"] is not None), "many_keys": int(len(keys) >= 9)}
     if isinstance(out, list):
         st["starts"] = sum(l[2] for l in out if l[0] == 20)
         st["stops"] = sum(l[2] for l in out if l[0] == 21)
